@@ -536,6 +536,14 @@ static void c15_transfer() {
               if (r4 || (r4.error() != nop::ErrorStatus::UnexpectedHandleType && r4.error() != nop::ErrorStatus::UnexpectedEncodingType) || !s3.log.got.empty())
                 rep().violation("C15:foreign-tag-accepted", fmt("%s: handle type tag %" PRIu64 " changed to %" PRIu64 ": read gave '%s', GetHandle was called %zu time(s)", t.name, tag, tag ^ (1ull << bit), r4 ? "success" : errname(r4.error()), s3.log.got.size()), cd);
             }
+            // the tags other policies use (0 = DefaultHandlePolicy, 1 = file handles) and the ends of the range: none is a wildcard
+            for (uint64_t other : {0ull, 1ull, 2ull, 0x7full, 0xffull, 0xffffffffull, ~0ull}) { if (other == tag) continue;
+              Enc t3; t3.put_uint(other, Role::TAG, 64); Bytes mb3 = vf::splice(e.out, f.off, f.len, t3.out);
+              Source s3; s3.init(R_LOG, mb3.data(), mb3.size()); void* o4 = t.create(); auto r4 = t.read(s3, o4); t.destroy(o4);
+              rep().count("c15_corrupted_tags"); rep().count("c15_tags_of_other_policies");
+              if (r4 || (r4.error() != nop::ErrorStatus::UnexpectedHandleType && r4.error() != nop::ErrorStatus::UnexpectedEncodingType) || !s3.log.got.empty())
+                rep().violation("C15:foreign-tag-accepted", fmt("%s: handle type tag %" PRIu64 " changed to %" PRIu64 " (another policy's tag): read gave '%s', GetHandle was called %zu time(s)", t.name, tag, other, r4 ? "success" : errname(r4.error()), s3.log.got.size()), cd);
+            }
             break;
           }
           for (nop::ErrorStatus E : {nop::ErrorStatus::InvalidHandleReference, nop::ErrorStatus::InvalidHandleValue, nop::ErrorStatus::IOError, nop::ErrorStatus::ProtocolError}) {
